@@ -12,6 +12,11 @@
 #include <AIToolbox/POMDP/Algorithms/Utils/Projecter.hpp>
 #include <AIToolbox/Utils/Prune.hpp>
 
+#ifdef AITOOLBOX_VERIF
+#include <functional>
+#include <optional>
+#endif
+
 namespace AIToolbox::POMDP {
     /**
      * @brief This class implements the Witness algorithm.
@@ -114,6 +119,34 @@ namespace AIToolbox::POMDP {
             template <IsModel M>
             std::tuple<double, ValueFunction> operator()(const M & model);
 
+#ifdef AITOOLBOX_VERIF
+            /**
+             * @brief Verification hook: one witness query, or the end of one action's search.
+             *
+             * Query is emitted after every call to WitnessLP::findWitness,
+             * with the candidate that was tested, the answer, and the entries
+             * found so far for this action (before the new one is added).
+             * ActionDone is emitted when the agenda of an action is empty,
+             * with all the entries found for it.
+             */
+            struct VerifEvent {
+                enum Kind { Query, ActionDone } kind;
+                unsigned timestep;
+                size_t action;
+                const MDP::Values * candidate;
+                const std::optional<Belief> * witness;
+                const VList * found;
+            };
+
+            /**
+             * @brief Verification hook: process-wide observer of the events above.
+             */
+            static std::function<void(const VerifEvent &)> & verifEventObserver() {
+                static std::function<void(const VerifEvent &)> observer;
+                return observer;
+            }
+#endif
+
         private:
             /**
              * @brief This function adds a default cross-sum to the agenda, to start off the algorithm.
@@ -194,6 +227,10 @@ namespace AIToolbox::POMDP {
                 // We check whether any element in the agenda improves what we have
                 while ( !agenda_.empty() ) {
                     const auto witness = lp.findWitness(agenda_.back());
+#ifdef AITOOLBOX_VERIF
+                    if (verifEventObserver())
+                        verifEventObserver()(VerifEvent{VerifEvent::Query, timestep, a, &agenda_.back(), &witness, &U[a]});
+#endif
                     if ( witness ) {
                         // If so, we generate the best vector for that particular belief point.
                         U[a].push_back(crossSumBestAtBelief(*witness, projections[a], a));
@@ -210,6 +247,10 @@ namespace AIToolbox::POMDP {
                     else
                         agenda_.pop_back();
                 }
+#ifdef AITOOLBOX_VERIF
+                if (verifEventObserver())
+                    verifEventObserver()(VerifEvent{VerifEvent::ActionDone, timestep, a, nullptr, nullptr, &U[a]});
+#endif
                 finalWSize += U[a].size();
             }
             VList w;
